@@ -141,7 +141,7 @@ def cname(n):
 def csym(fam, rx):
     """C identifier (F_<mangled>) of the unique function whose demangled name matches rx"""
     l = find_symbols(fam, rx)
-    if len(l) != 1: raise BuildError('csym(%s): %d matches for %r: %s' % (fam.name, len(l), rx, [d for _, d in l][:4]))
+    if len(l) != 1: raise BuildError('csym(%s): %d matches for %r: %s' % (fam.name, len(l), rx, [d[:160] for _, d in l][:3]))
     return 'F_' + cname(l[0][0])
 
 def layout_dir():
